@@ -47,6 +47,14 @@ def stepCodec (toks : List String) : Option String :=
     let bytes := Moc.Fits.rangeFile q w d rs
     let h := bytes.foldl (fun h b => ((h ^^^ b) * 1099511628211) % 2 ^ 64) 14695981039346656037
     pure s!"{bytes.length}:{h}"
+  | ["fits_file_id", q, w, d, idhex, ty, rs] => do
+    -- the whole file written with a MOC id (hex of its characters, `_` = none) and a MOC type (`_` = none)
+    let q ← qtyOf q; let w ← w.toNat?; let d ← d.toNat?; let rs ← parseRngs rs
+    let id ← if idhex == "_" then some none else (unhex idhex.toList).map some
+    let tyo := if ty == "_" then none else some ty.toList
+    let bytes := Moc.Fits.rangeFileWith q w d id tyo rs
+    let h := bytes.foldl (fun h b => ((h ^^^ b) * 1099511628211) % 2 ^ 64) 14695981039346656037
+    pure s!"{bytes.length}:{h}"
   | ["fits_nuniq_file", w, d, rs] => do
     -- the WHOLE NUNIQ file of the S-MOC: the NUNIQ numbers of the normal-form cells, ascending
     let w ← w.toNat?; let d ← d.toNat?; let rs ← parseRngs rs
